@@ -403,6 +403,28 @@ fn gen_c03(ch: &mut Choices) -> Plan {
             }
         }
     }
+    if ver == Ver::V5 && plan.cfg.use_router && role.is_server() && ch.chance(1, 3) {
+        // motif (router + topic aliases): one alias bound to a topic of one resource, re-bound to a topic of
+        // another resource (or of none): every publish is handled by the resource its own topic names, and the
+        // acknowledgement is that handler's
+        let alias = 1 + ch.choose(3) as u16;
+        let topics = ["a", "t/91", "b/3", "x/y"];
+        let first = ch.choose(4) as usize;
+        let second = (first + 1 + ch.choose(3) as usize) % 4;
+        // (no alias-only publishes here: C03's oracle attributes publishes by their topic, which must stay
+        // unique within a run; resolution of alias-only publishes is C17's business)
+        for (k, t) in [Some(topics[first]), Some(topics[second])].iter().enumerate() {
+            let pid = next_pid;
+            next_pid += 1;
+            let mut p = mk_publish(ver, ch, 90 + k as u32, 1, Some(pid), 2);
+            p.dup = false;
+            p.props.retain(|(id, _)| *id != 35);
+            p.props.push((35, PropVal::U16(alias)));
+            p.topic = t.map_or(String::new(), str::to_string);
+            plan.peer.script.push(step(Pkt::Publish(p), ver, Pre::Connected));
+        }
+        plan.tags.push("motif:alias-rebind-across-routes".into());
+    }
     // remaining PUBRELs in a drawn order
     while !pubrels.is_empty() {
         let k = ch.choose(pubrels.len() as u32) as usize;
